@@ -14,6 +14,7 @@
 package main
 
 import (
+	"bytes"
 	"context"
 	_ "crypto/sha256"
 	_ "crypto/sha512"
@@ -22,8 +23,12 @@ import (
 	"fmt"
 	"math/rand/v2"
 	"os"
+	"os/signal"
 	"path/filepath"
+	"strconv"
 	"strings"
+	"sync"
+	"syscall"
 	"time"
 
 	"oras.land/oras-go/v2/registry/remote/credentials"
@@ -43,7 +48,7 @@ func main() {
 		return
 	}
 	r := evidence.New("C18", "fault_enumeration")
-	r.Rule("seq: case = (generated docker config file: absent | absent directory | document with unknown top-level keys of every JSON type, credsStore/credHelpers, auths absent/null/with plain, unknown-field, legacy-field, legacy-URL-key and opaque entries; file mode; layout; config path a regular file or a symbolic link — relative in the same directory, absolute or relative into another directory, dangling) × history of 8–30 Put/Get/Delete/reopen steps over 5–9 address forms of 2–3 hosts with credentials having empty parts, colons, non-ASCII and JSON-hostile text, one step in eight a Put/Delete whose save is made to fail through the file system (config path is a directory | a parent component is a regular file; must return an error and change nothing), one case in five with a failed update of a stored address followed by a successful Put of another, one Put in six storing again exactly what Get currently answers, one case in five starting with Put(host, X) where only a legacy URL key holds X, followed by Delete of that key; after every step Get of every address, the parsed file, its mode and a freshly opened store are compared with the reference model. " +
+	r.Rule("seq: case = (generated docker config file: absent | absent directory | document with unknown top-level keys of every JSON type, credsStore/credHelpers, auths absent/null/with plain, unknown-field, legacy-field, legacy-URL-key and opaque entries; file mode; layout; config path a regular file or a symbolic link — relative in the same directory, absolute or relative into another directory, dangling) × history of 8–30 Put/Get/Delete/reopen steps over 5–9 address forms of 2–3 hosts with credentials having empty parts, colons, non-ASCII and JSON-hostile text, one step in eight a Put/Delete whose save is made to fail through the file system (config path is a directory | a parent component is a regular file | RLIMIT_FSIZE drawn around the document size so that write(2) to the temporary file is cut short or refused; an operation that returns an error must leave the file byte-for-byte and the store unchanged, one that returns nil must leave exactly the new document), one case in five with a failed update of a stored address followed by a successful Put of another, one Put in six storing again exactly what Get currently answers, one case in five starting with Put(host, X) where only a legacy URL key holds X, followed by Delete of that key; after every step Get of every address, the parsed file, its mode and a freshly opened store are compared with the reference model. " +
 		"crash: case = scripted (14 templates: document, regular or symlinked config path, prefix operations, one Put/Delete); the operation is killed before each of its file-system-mutating system calls in turn (exhaustive per case) and the document read through the configured path compared with the complete old and new documents; then a fresh store continues in the crashed directory (stray temporary files stay) with Delete / Put / Delete, and after each the file must be exactly one JSON document (no trailing bytes) equal to the model. " +
 		"conc: case = (document, 1–3 non-aliasing addresses, 4–16 goroutines × 2–6 operations with unique credentials); porcupine per address over the recorded history plus the final file; Gets also of a never-stored address and of a bare host known only under its legacy URL key; a reader polls the configured path (a third of the cases through a symbolic link); a monitor declares conc:deadlock when no call starts or returns between two samples and a stop-the-world goroutine dump shows every client parked on the config lock. " +
 		"distinct = hash(phase, document shape, operation/address-form/credential-class sequence [, system-call sequence | observed interleaving]); " +
@@ -52,7 +57,7 @@ func main() {
 	r.Assume("pre-existing documents are well-formed docker configs: auths is an object (or null/absent), credsStore a string or null, credHelpers an object of strings")
 	r.Assume("crash points are entries of file-system-mutating system calls as recognised by tools/crashat.c; a kill inside one write(2) is not explored (the data goes to a temporary file)")
 	r.Assume("the file is always read through the configured path; whether a symbolic link at that path survives a save is recorded, not judged")
-	r.Assume("a save is made to fail only through the file system (config path occupied by a directory, parent component a regular file), and only in steps where the answers of Get before and after the operation differ")
+	r.Assume("a save is made to fail only through the file system (config path occupied by a directory, parent component a regular file, RLIMIT_FSIZE with SIGXFSZ ignored standing in for ENOSPC/EDQUOT/EFBIG), and only in steps where the answers of Get before and after the operation differ")
 	r.Assume("Get of an address whose only matching entries are malformed (undecodable auth) is not judged")
 
 	// every temporary directory of the workers lives under one scratch directory that the
@@ -209,12 +214,57 @@ type seqStep struct {
 	Fail string `json:"save_made_to_fail_by,omitempty"`
 }
 
+var ignoreXFSZ sync.Once
+
+// pickFailMode draws how the save of a step is made to fail.
+func pickFailMode(rng *rand.Rand, path string) string {
+	switch rng.IntN(3) {
+	case 0:
+		return "path-is-directory"
+	case 1:
+		return "parent-is-file"
+	}
+	// a write fault: limits drawn around the size of the document
+	size := int64(0)
+	if fi, err := os.Stat(path); err == nil {
+		size = fi.Size()
+	}
+	opts := []int64{0, 1, 63, size / 2, size - 1, size - 40, size, size + 40, size + 4000, 4095, 4096}
+	n := opts[rng.IntN(len(opts))]
+	if n < 0 {
+		n = 0
+	}
+	return fmt.Sprintf("write-limit=%d", n)
+}
+
 // breakSave changes the file system so that the next save of the config file
 // must fail (also for root), and returns the function that puts everything back:
 //
 //	path-is-directory  the config path itself is a non-empty directory (rename fails)
 //	parent-is-file     a component of the config directory's path is a regular file
+//	write-limit=N      no file may grow beyond N bytes: the write to the temporary file is cut
+//	                   short / refused (the save may also succeed when N is large enough)
 func breakSave(mode, path string) (restore func() error, err error) {
+	if strings.HasPrefix(mode, "write-limit=") {
+		// RLIMIT_FSIZE for the duration of the step (SIGXFSZ ignored): write(2) beyond the
+		// limit is cut short or fails with EFBIG, as on a full disk or an exhausted quota.
+		// Only the library writes files in this process meanwhile.
+		n, err := strconv.ParseUint(strings.TrimPrefix(mode, "write-limit="), 10, 63)
+		if err != nil {
+			return nil, err
+		}
+		ignoreXFSZ.Do(func() { signal.Ignore(syscall.SIGXFSZ) })
+		var old syscall.Rlimit
+		if err := syscall.Getrlimit(syscall.RLIMIT_FSIZE, &old); err != nil {
+			return nil, err
+		}
+		lim := old
+		lim.Cur = n
+		if err := syscall.Setrlimit(syscall.RLIMIT_FSIZE, &lim); err != nil {
+			return nil, err
+		}
+		return func() error { return syscall.Setrlimit(syscall.RLIMIT_FSIZE, &old) }, nil
+	}
 	if _, e := os.Lstat(filepath.Dir(path)); e != nil {
 		mode = "parent-is-file" // the config directory does not exist yet
 	}
@@ -333,7 +383,7 @@ func runSeq(i int, rng *rand.Rand) (res worker.Result) {
 		a, b := pool[0], pool[len(pool)-1]
 		x, y, z := genCred(rng), genCred(rng), genCred(rng)
 		x.U, y.U = "first"+x.U, "second"+y.U
-		fm := []string{"path-is-directory", "parent-is-file"}[rng.IntN(2)]
+		fm := "pick" // drawn when the step runs (write limits depend on the document size then)
 		forced = append(forced, seqStep{Op: "put", Addr: a, Cred: &x}, seqStep{Op: "put", Addr: a, Cred: &y, Fail: fm}, seqStep{Op: "put", Addr: b, Cred: &z})
 	}
 	kind := "file"
@@ -478,38 +528,66 @@ func runSeq(i int, rng *rand.Rand) (res worker.Result) {
 			f := forced[0]
 			forced = forced[1:]
 			addr, fc, failMode = f.Addr, f.Cred, f.Fail
+			if failMode == "pick" {
+				failMode = pickFailMode(rng, path)
+			}
 			op = map[string]int{"put": 0, "delete": 9, "get": 15, "reopen": 18}[f.Op]
 		} else if rng.IntN(8) == 0 {
-			failMode = []string{"path-is-directory", "parent-is-file"}[rng.IntN(2)]
+			failMode = pickFailMode(rng, path)
 		}
 		// failingSave runs one Put/Delete that needs a save while the save cannot succeed:
 		// it must return an error and change nothing. What Get answers afterwards decides
 		// how the model goes on (rolled back / not rolled back / neither: stop).
-		failingSave := func(what string, after *model, run func() error) bool {
+		const (
+			fsStop      = iota // violation reported, end the case
+			fsFailed           // the operation failed and the model was brought in line
+			fsSucceeded        // the operation returned nil (write limit large enough): judge it as a normal success
+		)
+		failingSave := func(what string, after *model, run func() error) int {
 			before, _, _ := m.get(addr)
 			want, _, _ := after.get(addr)
+			_, rawBefore, _, presentBefore, _ := readDoc(path)
 			restore, err := breakSave(failMode, path)
 			if err != nil {
 				res.Violate("harness:break-save", err.Error(), wit())
-				return false
+				return fsStop
 			}
 			opErr := run()
 			if err := restore(); err != nil {
 				res.Violate("harness:restore", err.Error(), wit())
-				return false
+				return fsStop
+			}
+			limited := strings.HasPrefix(failMode, "write-limit=")
+			if limited {
+				res.Count("write_limited_saves", 1)
+			}
+			if opErr == nil && limited {
+				// the caller applies the operation to the model; the file must then be exactly
+				// the new document
+				res.Count("write_limited_saves_succeeded", 1)
+				return fsSucceeded
 			}
 			res.Count("failing_saves", 1)
-			res.Observe("failing_save_shapes", what[:3]+"/"+failMode)
+			shape := failMode
+			if limited {
+				shape = "write-limit"
+			}
+			res.Observe("failing_save_shapes", what[:3]+"/"+shape)
 			if opErr == nil {
 				res.Violate("failed-save:error-swallowed", fmt.Sprintf("%s returned nil although the config file could not be written (%s)", what, failMode), wit())
-				return false
+				return fsStop
+			}
+			// a refused operation leaves the old file as it is, byte for byte
+			if _, rawAfter, _, presentAfter, _ := readDoc(path); presentAfter != presentBefore || !bytes.Equal(rawBefore, rawAfter) {
+				res.Violate("failed-save:file-changed", fmt.Sprintf("%s failed (%v) under %s, but the config file changed: %d bytes before, %d bytes after", string(clip([]byte(what), 200)), opErr, failMode, len(rawBefore), len(rawAfter)), wit())
+				return fsStop
 			}
 			got, gerr := st.Get(ctx, addr)
 			g := fromLib(got)
 			switch {
 			case gerr != nil:
 				res.Violate("get-error", fmt.Sprintf("Get(%q) after the failed %s: %v", addr, what, gerr), wit())
-				return false
+				return fsStop
 			case credIn(g, before):
 				res.Count("failing_saves_rolled_back", 1)
 			case credIn(g, want):
@@ -524,9 +602,9 @@ func runSeq(i int, rng *rand.Rand) (res worker.Result) {
 				m = after
 			default:
 				res.Violate("failed-save:entry-neither-old-nor-new", fmt.Sprintf("%s failed (%v); Get(%q) now answers %s, which is neither the previous answer %v nor the refused one %v", what, opErr, addr, g, before, want), wit())
-				return false
+				return fsStop
 			}
-			return true
+			return fsFailed
 		}
 		// a failing step is only run where the answers before and after the operation are
 		// both predictable and have nothing in common, so that Get tells which one holds
@@ -564,8 +642,14 @@ func runSeq(i int, rng *rand.Rand) (res worker.Result) {
 			if after != nil && canFail(after) {
 				hist = append(hist, seqStep{Op: "put", Addr: addr, Cred: &c, Fail: failMode})
 				opsig.WriteString("F" + formClass(addr))
-				if !failingSave(fmt.Sprintf("Put(%q, %s)", addr, c), after, func() error { return st.Put(ctx, addr, c.lib()) }) {
+				switch failingSave(fmt.Sprintf("Put(%q, %s)", addr, c), after, func() error { return st.Put(ctx, addr, c.lib()) }) {
+				case fsStop:
 					return
+				case fsSucceeded:
+					m.put(addr, c)
+					mf = nil
+					effPut++
+					res.Count("puts", 1)
 				}
 				break
 			}
@@ -610,8 +694,14 @@ func runSeq(i int, rng *rand.Rand) (res worker.Result) {
 			if after != nil && canFail(after) {
 				hist = append(hist, seqStep{Op: "delete", Addr: addr, Fail: failMode})
 				opsig.WriteString("G" + formClass(addr))
-				if !failingSave(fmt.Sprintf("Delete(%q)", addr), after, func() error { return st.Delete(ctx, addr) }) {
+				switch failingSave(fmt.Sprintf("Delete(%q)", addr), after, func() error { return st.Delete(ctx, addr) }) {
+				case fsStop:
 					return
+				case fsSucceeded:
+					m.del(addr)
+					mf = nil
+					effDel++
+					res.Count("deletes_effective", 1)
 				}
 				break
 			}
